@@ -33,6 +33,8 @@ class MXS(Ext):
     def sym_getattr(self, eng, name):
         if name == "is_constant":
             return stub(lambda eng: self.deps == EMPTY)
+        if name == "is_symbolic":
+            return stub(lambda eng: bool(getattr(self, "symbolic", False)))
         if name == "name":
             return stub(lambda eng: self.label)
         if name == "size":
@@ -310,10 +312,66 @@ def _recorder(log, name):
     return m
 
 
+def h_substitute_delay_arguments(eng):
+    """Model._substitute_delay_arguments (used by every simplification step): BOTH the delayed expression and the duration of every
+    delay argument are rewritten with the full substitution -- otherwise a compound duration keeps referring to a symbol the step has
+    just removed from the variable lists, and _post_checks (which only sees the listed symbols) misses the dependency"""
+    install(eng)
+    mm = eng.load_module(MODEL)
+    cls = eng.module_global(mm, "Model")
+    f = eng.find_function(MODEL, "Model._substitute_delay_arguments")
+    nd = 1 + eng.choice(3)
+    eng.input("delays", nd)
+    log = []
+
+    class Sub(MXS):
+        pass
+
+    def substitute(eng, exprs, symbols, values):
+        outs = []
+        for e in eng.iterate(exprs):
+            o = Sub(EMPTY, "subst(%s)" % getattr(e, "label", "?"))
+            o.of, o.symbols, o.values = e, symbols, values
+            outs.append(o)
+        log.append(outs)
+        return VList(outs)
+    cas = eng.ext_modules["casadi"]
+    cas.attrs["substitute"] = stub(substitute)
+    da_cls = VClass("DelayArgument")
+    da_cls.constructor = lambda eng, c, a, kw: VObj(c, {"expr": a[0], "duration": a[1]})
+    mm.globals["DelayArgument"] = da_cls
+    kinds = [eng.choice(3) for _ in range(nd)]      # duration: 0 a bare symbol, 1 a compound expression, 2 a number
+    eng.input("duration_kinds", kinds)
+    es = [MXS(eng.fresh("E%d" % i, SSet), "e%d" % i) for i in range(nd)]
+    ds = []
+    for i, k in enumerate(kinds):
+        if k == 2:
+            ds.append(2.5)
+        else:
+            d = MXS(eng.fresh("D%d" % i, SSet), "d%d" % i)
+            d.symbolic = (k == 0)
+            ds.append(d)
+    args = VList([VObj(da_cls, {"expr": e, "duration": d}) for e, d in zip(es, ds)])
+    symbols, values = VList([MXS(EMPTY, "sym")]), VList([MXS(EMPTY, "val")])
+    m = VObj(cls, {})
+    r = eng.call(VBound(f, m), [args, symbols, values], {})
+    eng.cover("subst.done")
+    items = eng.iterate(r)
+    ok = len(items) == nd
+    for i in range(nd):
+        if not ok:
+            break
+        e2, d2 = items[i].fields.get("expr"), items[i].fields.get("duration")
+        ok = isinstance(e2, Sub) and e2.of is es[i] and e2.symbols is symbols and e2.values is values
+        ok = ok and isinstance(d2, Sub) and (d2.of is ds[i] or kinds[i] == 2) and d2.symbols is symbols and d2.values is values
+    eng.prove("subst.expression_and_duration_of_every_delay_rewritten_with_the_full_substitution", z3.BoolVal(bool(ok)), kinds=kinds)
+
+
 HARNESSES = [("Model._post_checks", h_post_checks), ("Model._post_checks/no-delays", h_no_delays),
              ("Generator.exitExpression#delay-branch", h_delay_translation),
-             ("Model.delay_arguments_function", h_delay_arguments_function), ("api._compile_model", h_compile_calls_post_checks)]
-EXPECTED_COVER = {"post.raises", "post.returns", "post.nodelay", "delay.done", "dafn.done", "compile.done"}
+             ("Model.delay_arguments_function", h_delay_arguments_function), ("api._compile_model", h_compile_calls_post_checks),
+             ("Model._substitute_delay_arguments", h_substitute_delay_arguments)]
+EXPECTED_COVER = {"post.raises", "post.returns", "post.nodelay", "delay.done", "dafn.done", "compile.done", "subst.done"}
 BOUNDED = True
 LEVEL = "proof"
 TRUSTED = ["pyvc VC generator", "z3 5.1.0",
@@ -326,7 +384,7 @@ ASSUMPTIONS = [
 EXPLANATION = "Set-algebra contract of _post_checks plus lock-step bookkeeping of the delay translation."
 MANIFEST = {
     "category": "proof",
-    "text": "_post_checks is executed symbolically with every delay duration's free-symbol set arbitrary and the fixed flags of inputs symbolic: it raises ValueError exactly when some duration depends on time, a state, a derivative, an algebraic variable or a non-fixed input. The delay branch of exitExpression (extracted structurally) is verified to extend delay_states, inputs and delay_arguments in lock step with a counter-based name; delay_arguments_function to output [e1,d1,e2,d2,...]; _compile_model to call _post_checks on what it returns. A bounded replay compiles real models with durations from each variable category.",
+    "text": "_post_checks is executed symbolically with every delay duration's free-symbol set arbitrary and the fixed flags of inputs symbolic: it raises ValueError exactly when some duration depends on time, a state, a derivative, an algebraic variable or a non-fixed input. The delay branch of exitExpression (extracted structurally) is verified to extend delay_states, inputs and delay_arguments in lock step with a counter-based name; delay_arguments_function to output [e1,d1,e2,d2,...]; _compile_model to call _post_checks on what it returns; _substitute_delay_arguments (used by every simplification step) to rewrite both the expression and the duration of every delay with the full substitution. A bounded replay compiles real models with durations from each variable category.",
     "note": "CasADi's depends_on/veccat are assumed (free-symbol-set semantics); list shapes enumerated; delays in for-loops only in the replay.",
     "technique": "contract-based deductive verification: symbolic execution with expressions abstracted to free-symbol sets (z3 arrays + quantifiers), structural fragment extraction",
 }
